@@ -7,12 +7,13 @@
    that the vertices must catch): C16_get_match_exceptions lists what get_match can raise, and
    C16_get_match_no_bare_error names the bare Python errors it therefore never raises.
    C16_set_exceptions: set_ without cascade on a path of keys and indices raises SetError or the budget exception,
-   nothing else; C16_root (see C08) and C16_pop (see C10): SetError / PopError.
+   nothing else; C16_pop_exceptions: pop on such a path raises MatchNotFoundError (with must_match), PopError (the root
+   path) or the budget exception, and succeeds whenever the path selects a node; C16_root (see C08).
    UNDISCHARGED: printability (str()/repr() twice, same text, naming the path) rests on the correspondence,
    which renders every library exception twice on the implementation side. *)
 From Coq Require Import List ZArith String Bool PArith.
 From TP Require Import Json PyPrim Machine Api Spec SpecHas Mutate SpecSet.
-From TP.proofs Require Import RefineBase Refine NextLayer Iterate WfRun Query SpecLemmas Top HasScan HasLoop HasRefine ApiTop HasLemmas MutateProofs FirstNext ExnTaxonomy.
+From TP.proofs Require Import RefineBase Refine NextLayer Iterate WfRun Query SpecLemmas Top HasScan HasLoop HasRefine ApiTop HasLemmas MutateProofs FirstNext ExnTaxonomy BelowLemmas PopTaxonomy.
 Import ListNotations.
 
 Theorem C16_query_ends_normally_or_in_TraversingError :
@@ -63,3 +64,17 @@ Theorem C16_set_exceptions : forall B H depth fuel d0 doc (pp : list (vertex (@h
   e = ESet \/ budget_exn e = true.
 Proof. exact set_match_plain_exceptions. Qed.
 Print Assumptions C16_set_exceptions.
+
+Theorem C16_pop_exceptions : forall B H depth d0 doc (p : list (vertex (@hpred json))) must tr e doc' es,
+  kipath p = true -> uniq doc -> NoDup (labels doc) ->
+  pop_match B H depth (SrcDoc d0) doc p must tr = (Exn e, doc', es) ->
+  (p = [] /\ e = EPop) \/ (must = true /\ e = EMatchNotFound) \/ budget_exn e = true.
+Proof. exact pop_match_exceptions. Qed.
+Print Assumptions C16_pop_exceptions.
+
+Theorem C16_get_exceptions : forall B H depth (src : @source json) (p : list (vertex (@hpred json))) dflt tr e,
+  src_wf src -> valid_path (@hpred json) p = true ->
+  fst (@get json jshape (fun d => d) B H depth src p dflt tr) = Exn e ->
+  (dflt = DNotSet /\ e = not_found src) \/ (exists c, e = ETraversing c) \/ budget_exn e = true.
+Proof. exact get_exceptions. Qed.
+Print Assumptions C16_get_exceptions.
